@@ -111,7 +111,8 @@ func c16Desc(r c16Repo) (zoekt.Repository, map[string]*zoekt.Repository) {
 
 func c16GenRepo(rng *rand.Rand, id uint32, prio int, ndocs int) c16Repo {
 	r := c16Repo{ID: id, Prio: prio, Flags: map[string]string{}}
-	r.Branches = [][]string{{"main"}, {"main", "dev"}, {"main", "dev", "rel"}, {"HEAD"}}[rng.Intn(4)]
+	// shared names at the same and at different positions of the lists (a document's branch mask is positional)
+	r.Branches = [][]string{{"main"}, {"main", "dev"}, {"main", "dev", "rel"}, {"HEAD"}, {"dev", "main"}, {"rel", "main", "dev"}, {"HEAD", "main"}, {"dev", "rel"}}[rng.Intn(8)]
 	r.Sub = rng.Intn(3) == 0
 	for _, f := range []string{"public", "fork", "archived"} {
 		if rng.Intn(3) == 0 {
